@@ -98,27 +98,6 @@ def check(ctx):
     quick = ctx.quick()
     binp = c.build_harness("c10")
     trace = ctx.path("trace.ndjson")
-    if getattr(ctx, "replay", None):
-        # re-run one recorded case on the real code and let TLC judge it again
-        rep = json.load(open(ctx.replay))["replay"]
-        h = rep["trace"][0]["hdr"]
-        scn = ctx.path("replay-scenario.ndjson")
-        with open(scn, "w") as f:
-            f.write(json.dumps({"w": h["W"], "d": h["D"], "table": h["table"], "msgs": h["msgs"], "out": [], "tick_us": h["tick_us"],
-                                "base": h["base"], "kind": h["kind"], "contract_ok": False}) + "\n")
-        info = drive(binp, ["--scenarios", scn], trace)
-        v = c.validate_trace(ctx, "sorter", "SorterTrace.tla", trace)
-        ctx.add_tlc("trace-validation", v.res)
-        ctx.evaluations = 1
-        for line in open(trace):
-            c.log(line.rstrip())
-        for r in v.rejected:
-            c.log("first unmatched event: line %d %s" % (r[1], r[2]))
-        cases = c.split_cases(trace)
-        for k in sorted(v.violations):
-            ctx.violation("replayed case rejected by SorterTrace", {"case": k, "trace": cases.get(k)})
-        ctx.traces_validated = 1 - len(v.violations)
-        return
     # (a) model checking of the design module: threshold >= D, permutation, ordered under the bound
     res = c.tlc_must_pass(ctx, "design", "mc/MCSorter.tla", "Sorter_quick.cfg" if quick else "Sorter_thorough.cfg", timeout=3000)
     # (b) scenario emission: every complete behaviour of the bounded models, with predicted output and contract verdict
@@ -194,7 +173,7 @@ def check(ctx):
         ctx.violation("case %d rejected by SorterTrace at line %s: %s (bound_ok=%s)" % (
             k, r[1] if r else "?", r[2] if r else "unfinished", bound_of.get(k)),
             {"case": k, "trace": cases.get(k), "first_unmatched": r[2] if r else None, "bound_ok": bound_of.get(k),
-             "how": "bin/check C10 --replay <this file>"})
+             "how": "bin/check C10 --replay <this file> re-validates this recorded trace; to re-run the case on the code: harness/target/debug/c10 --scenarios <file with {w,d,table,msgs,out:[],contract_ok:false,tick_us,base,kind} taken from hdr>"})
     ctx.assumptions = ["TLC and CommunityModules are correct",
                        "driver projection (payload position tag, full-field equality) is correct",
                        "times are on a 1 s / 0.1 s grid relative to a fixed base (all comparisons in the code are linear)",
